@@ -5,7 +5,8 @@
 (*             (once all threads have joined)                                                                        *)
 (*   no_dup:   no destination is offered the same message twice                                                      *)
 (*   order:    two messages whose send() calls are ordered by happens-before and both returned before add() was      *)
-(*             invoked are offered in that order; everything logged after add() returned comes after them            *)
+(*             invoked are offered in that order; everything logged after add() returned comes after them;           *)
+(*             in general (later_message_first) any two messages ordered by happens-before are offered in that order *)
 (* Verdict: <<"ACC", tid, clause>>.                                                                                  *)
 EXTENDS Naturals, Sequences, FiniteSets, TLC, Json, IOUtils, TLCExt
 TraceFile == JsonDeserialize(IOEnv.TRACE_FILE)
@@ -28,6 +29,8 @@ Clause ==
   ELSE IF \E d \in Dests : \E id \in Ids : id \notin {DelivIds(d)[k] : k \in DOMAIN DelivIds(d)} THEN "lost"
   ELSE IF \E d \in Dests : \E a, b \in Before : Pos("res", a) < Pos("inv", b) /\ Where(d, a) > Where(d, b) THEN "order_of_buffered"
   ELSE IF \E d \in Dests : \E a \in Before, b \in After : Where(d, a) > Where(d, b) THEN "buffered_after_later"
+  \* emission order in general: a message whose send() had returned before another one's was invoked is offered first
+  ELSE IF \E d \in Dests : \E a, b \in Ids : Pos("res", a) < Pos("inv", b) /\ Where(d, a) > Where(d, b) THEN "later_message_first"
   ELSE ""
 Init == tid \in DOMAIN Traces /\ done = FALSE
 Next == ~done /\ PrintT(<<"ACC", tid, Clause>>) /\ done' = TRUE /\ UNCHANGED tid
